@@ -42,7 +42,8 @@ def required_cells(tier):
             "side:pre": 8, "side:post": 8, "spec:float": 6, "stack:2": 4,
             "stack:3": 3, "kind:identity": 3, "kind:nontp": 3,
             "chain:coupled2": 2, "chain:commuting": 2, "chain:uncoupled": 3,
-            "chain-site:last": 2}
+            "chain-site:last": 2, "record_all:False": 5,
+            "control:extended-after-use": 4}
 
 
 def cases(tier, seed):
@@ -147,6 +148,51 @@ def run_single(case):
                         f"differs from the stated semantics by {errs[k]:.3e} "
                         f"first at recorded step {k}",
                 "mechanism": mech, "detail": {"errs": errs, "alt": alt}})
+    # record_all=False: the single returned state is the final one of the
+    # full run (controls act whether or not intermediate states are recorded)
+    if not violations and i % 3 == 1:
+        kw2 = dict(kw, record_all=False)
+        dynf = oqupy.compute_dynamics(sysd["oq"], rho0, **kw2)
+        sf = np.array(dynf.states)
+        ef = float(np.abs(sf[-1] - ref[-1]).max()) if sf.shape[0] == 1 \
+            else float("inf")
+        err = max(err, ef)
+        if not ef <= TOL:
+            violations.append({
+                "what": f"record_all=False: final state differs from the "
+                        f"stated semantics by {ef:.3e} ({stack} {kinds} "
+                        f"control(s) at step {step}, "
+                        f"{'post' if post else 'pre'}, {spec}; "
+                        f"{sf.shape[0]} states returned)",
+                "mechanism": "control-record-all-false", "detail": {}})
+    # history: the same Control object is extended after it was used and is
+    # used again (also on another time grid)
+    extra_cells = []
+    if not violations and i % 3 == 2 and nsteps >= 3:
+        extra_cells.append("control:extended-after-use")
+        s2 = scen.random_superop(rng, d, "unitary")
+        step2 = (step + 1) % (nsteps + 1)
+        post2 = bool(i % 2) and step2 < nsteps
+        off2 = float(rng.uniform(-0.3, 0.3))
+        if i % 2:
+            ctrl.add_single(float(start + (step2 + off2) * dt), s2,
+                            post=post2)
+        else:
+            ctrl.add_single(int(step2), s2, post=post2)
+        pre2 = {k: list(v) for k, v in pre.items()}
+        post2d = {k: list(v) for k, v in postd.items()}
+        (post2d if post2 else pre2).setdefault(step2, []).append(s2)
+        dyn2 = oqupy.compute_dynamics(sysd["oq"], rho0, **kw)
+        ref2 = ancilla.dense_dynamics(d, envs, rho0, nsteps, hp, pre2, post2d)
+        e2 = float(np.abs(np.array(dyn2.states) - ref2).max())
+        err = max(err, e2)
+        if not e2 <= TOL:
+            violations.append({
+                "what": f"a Control extended after it had been used: second "
+                        f"computation differs from the stated semantics by "
+                        f"{e2:.3e} (added {'float' if i % 2 else 'int'} key "
+                        f"at step {step2}, {'post' if post2 else 'pre'})",
+                "mechanism": "control-stale-after-extension", "detail": {}})
     effect = float(np.abs(ref - noctrl).max())
     cells = ["single", "side:" + ("post" if post else "pre"), "spec:" + spec,
              f"stack:{stack}"] + ["kind:" + k for k in set(kinds)]
@@ -154,6 +200,9 @@ def run_single(case):
         cells.append("step:first")
     if step == nsteps:
         cells.append("step:last")
+    cells += extra_cells
+    if i % 3 == 1:
+        cells.append("record_all:False")
     ident = kinds == ["identity"]
     sig = ("single", nenv, step == 0, step == nsteps, post, spec, stack,
            tuple(kinds), sysd["td"])
